@@ -23,7 +23,8 @@ EXTENDS UcfgPack
 
 Nm(s) == [n |-> s]
 Ix(i) == [i |-> i]
-Names(segs) == [j \in 1..Len(segs) |-> Nm(segs[j])]
+\* (a tag segment that is an integer literal is a list index: positional binding)
+Names(segs) == [j \in 1..Len(segs) |-> IF IsIdxSeg(segs[j]) THEN Ix(IdxSegs[segs[j]]) ELSE Nm(segs[j])]
 
 FieldPath(f) == IF f.tag = <<>> THEN <<DefaultName(f.n)>> ELSE f.tag
 
